@@ -119,6 +119,70 @@ def collision_worlds(r, thorough=False):
     return worlds
 
 
+def stale_worlds(r, n):
+    """state that survives between calls: an entry is recorded, then rewritten IN THE SAME PROCESS (update
+    mode) with a value of the same length - same file size, and the harness keeps every file's mtime at one
+    sentinel value, the image of a coarse-timestamp file system - then, updating off, the ORIGINAL value is
+    presented again: it differs from what the file holds now and must be reported.  (Anything that remembers
+    what a file contained, keyed by path, size or time, answers from memory here.)"""
+    from gen import Call
+    worlds = []
+    flip = lambda c: b'Q' if c != 81 else b'R'
+    words = [b'alpha', b'bravo', b'value', b'12345', b'x: 1', b'{"a": 1}', b'line']
+    for i in range(n):
+        kind = r.choice(['snap', 'snap', 'sasnap', 'json', 'yaml'])
+        if kind == 'json':
+            a = b'{"k": "%s", "n": %d}' % (r.choice(words[:3]), 10 + i % 80)
+            b = a[:7] + flip(a[7]) + a[8:]
+        elif kind == 'yaml':
+            a = b'k: %s\nn: %d\n' % (r.choice(words[:3]), 10 + i % 80)
+            b = a[:3] + flip(a[3]) + a[4:]
+        else:
+            lines = [r.choice(words) for _ in range(r.randint(1, 5))]
+            a = b'\n'.join(lines)
+            j = r.choice([k for k, c in enumerate(a) if bytes([c]).isalnum()])
+            b = a[:j] + flip(a[j]) + a[j + 1:]
+        mk = (lambda v: Call(kind, v, 's')) if kind in ('yaml', 'json') else (lambda v: Call(kind, v))
+        others = r.randint(0, 2)
+        w = World('c02-stale-%s-%d' % (kind, i))
+        w.add(mode_line(False, ''))
+        w.add(cfg_line(1, 'snaps'))
+        t = 0
+        for o in range(others):                    # neighbours in the same file
+            t += 1
+            w.add('begin %d %s' % (t, core.hx(b'TestOther%d' % o)))
+            w.add(Call('snap', b'other %d' % o).op(1, t))
+            w.add('end %d' % t)
+        t += 1
+        w.add('begin %d %s' % (t, core.hx(b'TestStale')))
+        w.add(mk(a).op(1, t))
+        w.add('end %d' % t)
+        if r.random() < 0.5:
+            t += 1                                   # a read of the recorded value in between
+            w.add('begin %d %s' % (t, core.hx(b'TestStale')))
+            w.add(mk(a).op(1, t), ('recorded-value-replays', suites.exp_silent))
+            w.add('end %d' % t)
+        w.add(mode_line(False, 'true'))
+        t += 1
+        w.add('begin %d %s' % (t, core.hx(b'TestStale')))
+        w.add(mk(b).op(1, t))
+        w.add('end %d' % t)
+        ci, upd, _ = r.choice([m for m in NOUPD if m[2] == 'none'])
+        if r.random() < 0.3:
+            w.add('reset')
+        w.add(mode_line(ci, upd))
+        t += 1
+        w.add('begin %d %s' % (t, core.hx(b'TestStale')))
+        w.add(mk(a).op(1, t), ('old-value-reported-after-same-size-update', exp_one_error_no_write))
+        w.add('end %d' % t)
+        t += 1
+        w.add('begin %d %s' % (t, core.hx(b'TestStale')))
+        w.add(mk(b).op(1, t), ('new-value-replays', suites.exp_silent))
+        w.add('end %d' % t)
+        worlds.append(w)
+    return worlds
+
+
 def known(w, p):
     if p['kind'] != 'expect':
         return None
@@ -165,6 +229,7 @@ def run(ctx):
                     w.expect[j] = ('fixed-pair-reported', suites.exp_one_error_no_write)
             worlds.append(w)
     worlds += collision_worlds(Gen(ctx.seed * 1000003 + 202).r, ctx.tier == 'thorough')
+    worlds += stale_worlds(Gen(ctx.seed * 1000003 + 2002).r, 40 if ctx.tier == 'quick' else 600)
     run_suite(ctx, 'match.mismatch', worlds, known=known)
     # colours on: the report must still be non-empty (no model: ANSI layout is not modelled)
     gc = Gen(ctx.seed * 1000003 + 22)
